@@ -234,6 +234,45 @@ def rule_ctor_total(ctx, rep, facts, sibling_ok):
     rep.extra['protocol_paths'] = facts.paths
 
 
+# --------------------------------------------------------------------------- R-PROGRESS
+
+def rule_progress(ctx, rep, facts):
+    """The dispatch loop of tokenize_block terminates only if every read() that returns a result has
+    consumed at least one line net of its back-steps, and a read() that returns None has restored the
+    cursor. Decided on every path of the simulated protocol (cursor is concrete there)."""
+    model = ctx.model
+    rep.rule('R-PROGRESS', 'every read(): result => net consumption of >= 1 line; None => cursor restored')
+    audit = load_audit('c01')
+    by_cls = {}
+    for q, is_none, cur, trace in facts.progress:
+        by_cls.setdefault(q, []).append((is_none, cur, trace))
+    n = 0
+    for q, items in sorted(by_cls.items()):
+        cls = model.classes[q]
+        rep.instance('R-PROGRESS')
+        bad = None
+        for is_none, cur, trace in items:
+            n += 1
+            if cur is None:
+                continue
+            if is_none and cur != -1:
+                k = 'C01/R-PROGRESS/%s/none-without-restore' % cls.lookup('read')[1].short
+                if k in audit:
+                    if k not in [u['key'] for u in rep.audit_used]:
+                        rep.audit_used.append({'key': k, 'reason': audit[k]['reason']})
+                    continue
+                bad = ('returns None but leaves the cursor at line %d' % (cur + 1), trace)
+            if not is_none and cur < 0:
+                bad = ('returns a result after net consumption of %d lines' % (cur + 1), trace)
+        rep.obligation('R-PROGRESS', bad is None, {'class': cls.short, 'paths': len(items)})
+        if bad is not None:
+            rd = cls.lookup('read')[1]
+            rep.find('R-PROGRESS', rd.short, 'net-consumption', '%s %s (decisions: %s): the dispatch loop of tokenize_block '
+                     'sees the same line again and never terminates' % (rd.short, bad[0], bad[1][:6]),
+                     loc(model.unit_of(rd), rd.node))
+    rep.floor('R-PROGRESS', n, 100)
+
+
 # --------------------------------------------------------------------------- R-RAISE
 
 def entry_points(ctx):
@@ -289,6 +328,7 @@ def run(ctx):
     rule_render_total(ctx, rep, facts)
     sib = rule_sibling_rx(ctx, rep)
     rule_ctor_total(ctx, rep, facts, sib)
+    rule_progress(ctx, rep, facts)
     rule_raise(ctx, rep)
     from . import c01_lint
     c01_lint.rule_idx(ctx, rep)
